@@ -1129,8 +1129,14 @@ func main() {
 	if v := os.Getenv("C52_ONLY"); v != "" { // debugging aid: run one generated case
 		var idx int
 		fmt.Sscan(v, &idx)
-		o := runCase(idx, nil)
-		fmt.Println(o.term)
+		var fx *fixed
+		if idx < len(cp) {
+			fx = &cp[idx]
+		}
+		o := runCase(idx, fx)
+		if os.Getenv("C52_TRACE") == "" {
+			fmt.Println(o.term)
+		}
 		fmt.Println(o.cd.Shapes)
 		return
 	}
